@@ -1,28 +1,35 @@
 (* Proofs/WireP.v — the wire formats of Model/Wire.v are canonical codecs.
-   For every wire type T (E, X, P, ct, pk, sk, schnorr, cp, the five StrandVector instances, proof):
-     (R) rt_T          : vT v -> rd_T (wr_T v ++ rest) = Ok (v, rest)
+   For every wire type T in {E, X, P, ct, pk, sk, schnorr, cp, vecE, vecX, vecC, vecP, vecCP, proof}:
+     (R) rt_T          : RT vT wr_T rd_T, i.e. vT v -> rd_T (wr_T v ++ rest) = Ok (v, rest)
          de_ser_T      : vT v -> de_T (wr_T v) = Ok v
          de_trailing_T : vT v -> rest <> [] -> de_T (wr_T v ++ rest) = Err
          ser_inj_T     : vT v1 -> vT v2 -> wr_T v1 = wr_T v2 -> v1 = v2
-     (V) val_T         : bytes_ok bs -> rd_T bs = Ok (v, rest) -> wT v /\ bytes_ok rest
-                         (only members / canonical exponents decode; [bytes_ok] is needed only because
+     (V) val_T         : VAL wT rd_T, i.e. bytes_ok bs -> rd_T bs = Ok (v, rest) -> wT v /\ bytes_ok rest
+         de_val_T      : bytes_ok bs -> de_T bs = Ok v -> wT v
+                         (only members / canonical exponents decode.  [bytes_ok bs] is needed only because
                          the model's bytes are arbitrary Z and [le_int] of negative "bytes" can be
-                         negative: it is used for "0 <= exponent" and for the plaintext bound.
-                         The element-only facts [val_E_any], [val_ct_any], [val_pk_any], [val_vecE_any],
-                         [val_vecC_any] hold for arbitrary Z lists.)
+                         negative: it is used for "0 <= exponent" and for the plaintext bound.  The
+                         element-only facts val_E_any, val_ct_any, val_pk_any, val_vecE_any, val_vecC_any,
+                         de_val_{E,ct,pk}_any and the bound val_X_any hold for arbitrary Z lists.)
      (N) np_T, de_np_T : no input makes a reader or strict decoder panic (unconditional)
-     (T) pf_T, de_trunc_T : every strict prefix of an honest encoding is rejected with Err.
-   The size hypothesis [p < 2^(8*4294967295)] is stated through [wire_lim := 4294967295] (convertible
-   with the literal) only because [lia] would otherwise try to evaluate that power. *)
+     (T) pf_T          : PF vT wr_T rd_T, every strict prefix of an honest encoding makes rd_T fail;
+         de_trunc_T    : vT v -> (exists x, x <> [] /\ b ++ x = wr_T v) -> de_T b = Err.
+   For the five StrandVector instances Model/Wire.v has no de_*; there de_T means [strict rd_T].
+   sk is stated on pairs (value, pk_element) with writer [wr_skp].
+
+   Size hypotheses.  The section is parametric in a byte budget N with 1 <= N <= 4294967295 and
+   p < 2^(8*N); the instance N = 4294967295 is the bound "p < 2^(8*4294967295)" (see the end of the
+   file).  The literal power is deliberately kept out of every proof context: lia, auto and
+   assumption try to evaluate it (a 4 GiB number).  Each theorem depends only on the hypotheses it
+   needs ([Proof using] + clear): (V) needs only 1 < p, (N) nothing, (R)/(T) the size bounds.
+   Vector validity [vvec v wr l] = u32 count /\ every item valid and its encoding shorter than 2^32
+   (the inner Vec<u8> prefix); v_vec*_intro derive the per-item bound from N when 4*(4+N) < 2^32. *)
 From Coq Require Import ZArith List Bool Lia.
 From Strand Require Import Base.ZUtil Model.Outcome Model.Codec Model.Backend Model.ZBackend Model.Zkp
   Model.Wire Proofs.ZLaws Proofs.CodecP.
 Import ListNotations.
 Open Scope Z_scope.
 
-Definition wire_lim : Z := 4294967295.
-Lemma wire_lim_bound : 1 <= wire_lim < 4294967296.
-Proof. unfold wire_lim. lia. Qed.
 
 (* invert a chain of binds ending in [Ok] *)
 Ltac binv H :=
@@ -34,10 +41,15 @@ Ltac binv H :=
   end.
 
 Section W.
+  Set Default Proof Using "Type".
   Variable K : Kernel.
   Variable fl : flavor.
   Variable P : Params.
-  Hypothesis p_small : 1 < p_p P /\ p_p P < 2 ^ (8 * wire_lim).
+  (* byte budget: p fits in N bytes, N <= u32::MAX (the task's bound is the instance N = 4294967295) *)
+  Variable N : Z.
+  Hypothesis N_ok : 1 <= N <= 4294967295.
+  Hypothesis p_gt1 : 1 < p_p P.
+  Hypothesis p_small : p_p P < 2 ^ (8 * N).
   Hypothesis q_le : 0 < p_q P <= p_p P.
   Notation p := (p_p P).
   Notation q := (p_q P).
@@ -47,31 +59,34 @@ Section W.
   (* integers <-> bytes per flavor                                                            *)
   (* ---------------------------------------------------------------------------------------- *)
   Lemma int_bytes x : 0 <= x -> int_of_bytes fl (bytes_of_int fl x) = x.
-  Proof.
+  Proof. try clear q_le. try clear p_small. try clear N_ok. try clear N. try clear p_gt1.
     intro Hx. unfold int_of_bytes, bytes_of_int. destruct fl.
     - apply le_bytes_min_int, Hx.
     - apply be_digits_int, Hx.
   Qed.
 
   Lemma bytes_of_int_ok x : bytes_ok (bytes_of_int fl x).
-  Proof. unfold bytes_of_int. destruct fl; [apply le_bytes_min_ok|apply be_digits_ok]. Qed.
+  Proof. try clear q_le. try clear p_small. try clear N_ok. try clear N. try clear p_gt1. unfold bytes_of_int. destruct fl; [apply le_bytes_min_ok|apply be_digits_ok]. Qed.
 
-  Lemma bytes_of_int_len x : x < 2 ^ (8 * wire_lim) -> Z.of_nat (length (bytes_of_int fl x)) < 2 ^ 32.
-  Proof.
-    intro Hx. pose proof wire_lim_bound as HL. rewrite pow256 in Hx by lia.
+  Lemma bytes_of_int_len x : x < 2 ^ (8 * N) -> Z.of_nat (length (bytes_of_int fl x)) <= N.
+  Proof using N_ok. try clear q_le. try clear p_small. try clear p_gt1.
+    intro Hx. pose proof N_ok as HL. rewrite pow256 in Hx by lia.
     unfold bytes_of_int. destruct fl.
-    - pose proof (le_bytes_min_len wire_lim x ltac:(lia) Hx). lia.
-    - pose proof (be_digits_len wire_lim x ltac:(lia) Hx). lia.
+    - apply (le_bytes_min_len N x ltac:(lia) Hx).
+    - apply (be_digits_len N x ltac:(lia) Hx).
   Qed.
 
+  Lemma bytes_of_int_u32 x : x < 2 ^ (8 * N) -> Z.of_nat (length (bytes_of_int fl x)) < 2 ^ 32.
+  Proof using N_ok. try clear q_le. try clear p_small. try clear p_gt1. intro Hx. pose proof N_ok. pose proof (bytes_of_int_len x Hx). lia. Qed.
+
   Lemma int_of_bytes_bound bs : bytes_ok bs -> 0 <= int_of_bytes fl bs < 256 ^ Z.of_nat (length bs).
-  Proof. intro H. unfold int_of_bytes. destruct fl; [apply le_int_bound|apply be_int_bound]; exact H. Qed.
+  Proof. try clear q_le. try clear p_small. try clear N_ok. try clear N. try clear p_gt1. intro H. unfold int_of_bytes. destruct fl; [apply le_int_bound|apply be_int_bound]; exact H. Qed.
 
   (* ---------------------------------------------------------------------------------------- *)
   (* exact characterisation of the primitive decoders                                         *)
   (* ---------------------------------------------------------------------------------------- *)
   Lemma legendre_1 a : legendre K P a = 1 <-> a ^ q mod p = 1.
-  Proof.
+  Proof using p_gt1. try clear q_le. try clear p_small. try clear N_ok. try clear N.
     unfold legendre. rewrite k_powm_ok, powm_spec by lia.
     destruct (Z.eqb_spec (a ^ q mod p) 0) as [E0|E0]; [lia|].
     destruct (Z.eqb_spec (a ^ q mod p) 1) as [E1|E1]; lia.
@@ -79,7 +94,7 @@ Section W.
 
   Theorem element_from_int_spec i v :
     element_from_int K P i = Ok v <-> v = i /\ 1 <= v < p /\ v ^ q mod p = 1.
-  Proof.
+  Proof using p_gt1. try clear q_le. try clear p_small. try clear N_ok. try clear N.
     unfold element_from_int. rewrite Z.geb_leb.
     destruct (Z.ltb_spec i 1) as [H1|H1]; cbn [orb].
     { split; [discriminate|]. intros (-> & ? & _). lia. }
@@ -95,45 +110,45 @@ Section W.
   Theorem element_from_bytes_spec bs v :
     element_from_bytes K fl P bs = Ok v <->
     v = int_of_bytes fl bs /\ 1 <= v < p /\ v ^ q mod p = 1.
-  Proof. unfold element_from_bytes. apply element_from_int_spec. Qed.
+  Proof using p_gt1. try clear q_le. try clear p_small. try clear N_ok. try clear N. unfold element_from_bytes. apply element_from_int_spec. Qed.
 
   Theorem exp_from_bytes_spec bs v :
     exp_from_bytes fl P bs = Ok v <-> v = int_of_bytes fl bs /\ v < q.
-  Proof.
+  Proof. try clear q_le. try clear p_small. try clear N_ok. try clear N. try clear p_gt1.
     unfold exp_from_bytes. rewrite Z.geb_leb.
     destruct (Z.leb_spec q (int_of_bytes fl bs)) as [H|H].
     - split; [discriminate|]. intros [-> ?]. lia.
-    - split; [intro E; injection E as <-; auto|intros [-> _]; reflexivity].
+    - split; [intro E; injection E as <-; split; [reflexivity|exact H]|intros [-> _]; reflexivity].
   Qed.
 
   Lemma element_from_bytes_np bs : element_from_bytes K fl P bs <> Panic.
-  Proof.
+  Proof. try clear q_le. try clear p_small. try clear N_ok. try clear N. try clear p_gt1.
     unfold element_from_bytes, element_from_int. destruct (_ || _); [discriminate|].
     destruct (negb _); discriminate.
   Qed.
 
   Lemma exp_from_bytes_np bs : exp_from_bytes fl P bs <> Panic.
-  Proof. unfold exp_from_bytes. destruct (_ >=? _); discriminate. Qed.
+  Proof. try clear q_le. try clear p_small. try clear N_ok. try clear N. try clear p_gt1. unfold exp_from_bytes. destruct (_ >=? _); discriminate. Qed.
 
   (* ---------------------------------------------------------------------------------------- *)
   (* validity predicates                                                                      *)
   (* ---------------------------------------------------------------------------------------- *)
   Definition vE (a : Z) : Prop := member P a.
   Definition vX (x : Z) : Prop := 0 <= x < q.
-  Definition vP (m : Z) : Prop := 0 <= m < 2 ^ (8 * wire_lim).
+  Definition vP (m : Z) : Prop := 0 <= m < 2 ^ (8 * N).
 
-  Lemma vE_lt a : vE a -> 0 <= a < 2 ^ (8 * wire_lim).
-  Proof. intros [H _]. lia. Qed.
-  Lemma vX_lt x : vX x -> 0 <= x < 2 ^ (8 * wire_lim).
-  Proof. unfold vX. lia. Qed.
+  Lemma vE_lt a : vE a -> 0 <= a < 2 ^ (8 * N).
+  Proof using p_small. try clear q_le. try clear N_ok. try clear p_gt1. intros [H _]. lia. Qed.
+  Lemma vX_lt x : vX x -> 0 <= x < 2 ^ (8 * N).
+  Proof using p_small q_le. try clear N_ok. try clear p_gt1. unfold vX. lia. Qed.
 
   (* ======================================================================================== *)
   (* E                                                                                        *)
   (* ======================================================================================== *)
   Theorem rt_E : RT vE (wr_E fl) (rd_E K fl P).
-  Proof.
+  Proof using N_ok p_gt1 p_small. try clear q_le.
     intros a rest Ha. pose proof (vE_lt a Ha) as Hl.
-    unfold rd_E, wr_E, z_ser_int. rewrite rd_vec_u8_app by (apply bytes_of_int_len; lia).
+    unfold rd_E, wr_E, z_ser_int. rewrite rd_vec_u8_app by (apply bytes_of_int_u32; lia).
     cbn [bind].
     assert (E : element_from_bytes K fl P (bytes_of_int fl a) = Ok a).
     { apply element_from_bytes_spec. rewrite int_bytes by lia. destruct Ha as [? ?]. auto. }
@@ -141,14 +156,14 @@ Section W.
   Qed.
 
   Theorem val_E_any bs a rest : rd_E K fl P bs = Ok (a, rest) -> member P a.
-  Proof.
+  Proof using p_gt1. try clear q_le. try clear p_small. try clear N_ok. try clear N.
     unfold rd_E. intro H. binv H. injection H as <- <-.
     apply element_from_bytes_spec in E0 as (_ & ? & ?). split; assumption.
   Qed.
 
   Lemma rd_vec_u8_ok bs b r : bytes_ok bs -> rd_vec_u8 bs = Ok (b, r) ->
     bytes_ok b /\ bytes_ok r /\ Z.of_nat (length b) < 2 ^ 32.
-  Proof.
+  Proof. try clear q_le. try clear p_small. try clear N_ok. try clear N. try clear p_gt1.
     intros Hok E. apply rd_vec_u8_inv in E as (a & -> & La & Lb).
     apply bytes_ok_app in Hok as [Ha Hok]. apply bytes_ok_app in Hok as [Hb Hr].
     split; [exact Hb|]. split; [exact Hr|].
@@ -160,34 +175,34 @@ Section W.
     forall bs a r, bytes_ok bs -> rd bs = Ok (a, r) -> v a /\ bytes_ok r.
 
   Theorem val_E : VAL vE (rd_E K fl P).
-  Proof.
+  Proof using p_gt1. try clear q_le. try clear p_small. try clear N_ok. try clear N.
     intros bs a r Hok H. split; [eapply val_E_any; eauto|].
     unfold rd_E in H. binv H. injection H as <- <-. eapply rd_vec_u8_ok; eauto.
   Qed.
 
   Theorem np_E : np_reader (rd_E K fl P).
-  Proof.
+  Proof. try clear q_le. try clear p_small. try clear N_ok. try clear N. try clear p_gt1.
     intro bs. unfold rd_E. apply bind_np; [apply rd_vec_u8_np|]. intros [b r].
     apply bind_np; [apply element_from_bytes_np|]. discriminate.
   Qed.
 
-  Lemma wr_int_pf a b x : a < 2 ^ (8 * wire_lim) -> x <> [] -> b ++ x = z_ser_int fl a ->
+  Lemma wr_int_pf a b x : a < 2 ^ (8 * N) -> x <> [] -> b ++ x = z_ser_int fl a ->
     rd_vec_u8 b = Err.
-  Proof. intros Ha Hx E. eapply rd_vec_u8_pf; eauto. apply bytes_of_int_len, Ha. Qed.
+  Proof using N_ok. try clear q_le. try clear p_small. try clear p_gt1. intros Ha Hx E. eapply rd_vec_u8_pf; eauto. apply bytes_of_int_u32, Ha. Qed.
 
   Theorem pf_E : PF vE (wr_E fl) (rd_E K fl P).
-  Proof.
+  Proof using N_ok p_small. try clear q_le. try clear p_gt1.
     intros a b x Ha Hx E. unfold rd_E. apply bind_err. apply vE_lt in Ha.
-    eapply wr_int_pf; eauto. lia.
+    apply (wr_int_pf a b x); [lia|exact Hx|exact E].
   Qed.
 
   (* ======================================================================================== *)
   (* X                                                                                        *)
   (* ======================================================================================== *)
   Theorem rt_X : RT vX (wr_X fl) (rd_X fl P).
-  Proof.
+  Proof using N_ok p_small q_le. try clear p_gt1.
     intros a rest Ha. pose proof (vX_lt a Ha) as Hl.
-    unfold rd_X, wr_X, z_ser_int. rewrite rd_vec_u8_app by (apply bytes_of_int_len; lia).
+    unfold rd_X, wr_X, z_ser_int. rewrite rd_vec_u8_app by (apply bytes_of_int_u32; lia).
     cbn [bind].
     assert (E : exp_from_bytes fl P (bytes_of_int fl a) = Ok a).
     { apply exp_from_bytes_spec. rewrite int_bytes by lia. unfold vX in Ha. split; [reflexivity|lia]. }
@@ -195,7 +210,7 @@ Section W.
   Qed.
 
   Theorem val_X : VAL vX (rd_X fl P).
-  Proof.
+  Proof. try clear q_le. try clear p_small. try clear N_ok. try clear N. try clear p_gt1.
     intros bs a r Hok H. unfold rd_X in H. binv H. injection H as <- <-.
     destruct (rd_vec_u8_ok _ _ _ Hok E) as (Hb & Hr & _). split; [|exact Hr].
     apply exp_from_bytes_spec in E0 as [-> Hq]. pose proof (int_of_bytes_bound _ Hb). unfold vX. lia.
@@ -203,37 +218,37 @@ Section W.
 
   (* without [bytes_ok] only the upper bound survives *)
   Theorem val_X_any bs a rest : rd_X fl P bs = Ok (a, rest) -> a < q.
-  Proof.
+  Proof. try clear q_le. try clear p_small. try clear N_ok. try clear N. try clear p_gt1.
     unfold rd_X. intro H. binv H. injection H as <- <-. apply exp_from_bytes_spec in E0 as [_ ?]. assumption.
   Qed.
 
   Theorem np_X : np_reader (rd_X fl P).
-  Proof.
+  Proof. try clear q_le. try clear p_small. try clear N_ok. try clear N. try clear p_gt1.
     intro bs. unfold rd_X. apply bind_np; [apply rd_vec_u8_np|]. intros [b r].
     apply bind_np; [apply exp_from_bytes_np|]. discriminate.
   Qed.
 
   Theorem pf_X : PF vX (wr_X fl) (rd_X fl P).
-  Proof.
+  Proof using N_ok p_small q_le. try clear p_gt1.
     intros a b x Ha Hx E. unfold rd_X. apply bind_err. apply vX_lt in Ha.
-    eapply wr_int_pf; eauto. lia.
+    apply (wr_int_pf a b x); [lia|exact Hx|exact E].
   Qed.
 
   (* ======================================================================================== *)
   (* P (plaintext)                                                                            *)
   (* ======================================================================================== *)
   Lemma wr_P_malachite m : wr_P Malachite m = wr_vec u16le (be_digits m).
-  Proof. reflexivity. Qed.
+  Proof. try clear q_le. try clear p_small. try clear N_ok. try clear N. try clear p_gt1. reflexivity. Qed.
 
   Lemma digit_u16 d r : 0 <= d < 256 -> rd_u16 (u16le d ++ r) = Ok (d, r).
-  Proof. intro H. apply rd_u16_app. lia. Qed.
+  Proof. try clear q_le. try clear p_small. try clear N_ok. try clear N. try clear p_gt1. intro H. apply rd_u16_app. lia. Qed.
 
   Theorem rt_P : RT vP (wr_P fl) (rd_P fl).
-  Proof.
-    intros m rest [Hm0 Hm]. pose proof wire_lim_bound as HL. unfold rd_P. destruct fl.
+  Proof using N_ok. try clear q_le. try clear p_small. try clear p_gt1.
+    intros m rest [Hm0 Hm]. pose proof N_ok as HL. unfold rd_P. destruct fl.
     - unfold wr_P. rewrite rd_vec_u8_app.
       + cbn [bind]. rewrite le_bytes_min_int by lia. reflexivity.
-      + rewrite pow256 in Hm by lia. pose proof (le_bytes_min_len wire_lim m ltac:(lia) Hm). lia.
+      + rewrite pow256 in Hm by lia. pose proof (le_bytes_min_len N m ltac:(lia) Hm). lia.
     - rewrite wr_P_malachite.
       pose proof (be_digits_ok m) as Hok. unfold bytes_ok in Hok. rewrite Forall_forall in Hok.
       rewrite (rd_vec_app 2 rd_u16 u16le (fun d => d)).
@@ -241,22 +256,32 @@ Section W.
         assert (Hf : forallb (fun d => d <? 256) (be_digits m) = true).
         { apply forallb_forall. intros d Hd. apply Z.ltb_lt. apply Hok in Hd. lia. }
         rewrite Hf, be_digits_int by lia. reflexivity.
-      + rewrite pow256 in Hm by lia. pose proof (be_digits_len wire_lim m ltac:(lia) Hm). lia.
+      + rewrite pow256 in Hm by lia. pose proof (be_digits_len N m ltac:(lia) Hm). lia.
       + intros a _. rewrite u16le_len. lia.
       + intros a r Ha. apply digit_u16, Hok, Ha.
   Qed.
 
-  Lemma pow256_le_lim n : Z.of_nat n < 2 ^ 32 -> 256 ^ Z.of_nat n <= 2 ^ (8 * wire_lim).
-  Proof.
-    intro H. pose proof wire_lim_bound as HL. rewrite pow256 by lia.
-    apply Z.pow_le_mono_r; lia.
+  (* what a decoded plaintext satisfies: non-negative, at most u32::MAX base-256 digits.  (The bound
+     is kept existential so that no proof ever meets the literal 2^(8*4294967295).) *)
+  Definition wP (m : Z) : Prop := exists n, 0 <= n <= 4294967295 /\ 0 <= m < 2 ^ (8 * n).
+
+  Lemma wP_intro n m : Z.of_nat n < 2 ^ 32 -> 0 <= m < 256 ^ Z.of_nat n -> wP m.
+  Proof. try clear q_le. try clear p_small. try clear N_ok. try clear N. try clear p_gt1. intros Hn Hm. exists (Z.of_nat n). rewrite pow256 by lia. split; lia. Qed.
+
+  Lemma wP_vP m : N = 4294967295 -> wP m -> vP m.
+  Proof. try clear q_le. try clear p_small. try clear N_ok. try clear N. try clear p_gt1.
+    intros HN (n & Hn & Hm). unfold vP. split; [lia|].
+    eapply Z.lt_le_trans; [apply Hm|]. apply Z.pow_le_mono_r; lia.
   Qed.
 
-  Theorem val_P : VAL vP (rd_P fl).
-  Proof.
+  Lemma vP_wP m : vP m -> wP m.
+  Proof using N_ok. try clear q_le. try clear p_small. try clear p_gt1. intro H. exists N. pose proof N_ok. unfold vP in H. split; lia. Qed.
+
+  Theorem val_P : VAL wP (rd_P fl).
+  Proof. try clear q_le. try clear p_small. try clear N_ok. try clear N. try clear p_gt1.
     intros bs m r Hok H. unfold rd_P in H. destruct fl.
     - binv H. injection H as <- <-. destruct (rd_vec_u8_ok _ _ _ Hok E) as (Hb & Hr & Hl).
-      split; [|exact Hr]. pose proof (le_int_bound _ Hb). pose proof (pow256_le_lim _ Hl). unfold vP. lia.
+      split; [|exact Hr]. eapply wP_intro; [exact Hl|]. apply le_int_bound, Hb.
     - binv H. destruct (forallb _ l) eqn:Hf; [|discriminate]. injection H as <- <-.
       destruct (rd_vec_inv 2 rd_u16 bytes_ok (fun d => 0 <= d)) with (4 := E) as (Hl & Hr & a & La & (t & ->) & Ln).
       + intros x y Hxy. apply bytes_ok_app in Hxy. tauto.
@@ -269,12 +294,11 @@ Section W.
           intros d Hd. specialize (Hl d Hd). specialize (Hf d Hd). apply Z.ltb_lt in Hf. lia. }
         apply bytes_ok_app in Hok as [Ha _]. pose proof (le_int_bound a Ha) as Hi. rewrite La in Hi.
         change (256 ^ Z.of_nat 4) with 4294967296 in Hi.
-        pose proof (be_int_bound _ Hds). pose proof (pow256_le_lim (length l) ltac:(lia)).
-        unfold vP. lia.
+        eapply wP_intro; [|apply be_int_bound, Hds]. lia.
   Qed.
 
   Theorem np_P : np_reader (rd_P fl).
-  Proof.
+  Proof. try clear q_le. try clear p_small. try clear N_ok. try clear N. try clear p_gt1.
     intro bs. unfold rd_P. destruct fl.
     - apply bind_np; [apply rd_vec_u8_np|]. intros [b r]. discriminate.
     - apply bind_np; [apply rd_vec_np; exact rd_u16_np|]. intros [b r].
@@ -282,17 +306,652 @@ Section W.
   Qed.
 
   Theorem pf_P : PF vP (wr_P fl) (rd_P fl).
-  Proof.
-    intros m b x [Hm0 Hm] Hx E. pose proof wire_lim_bound as HL. unfold rd_P. destruct fl.
+  Proof using N_ok. try clear q_le. try clear p_small. try clear p_gt1.
+    intros m b x [Hm0 Hm] Hx E. pose proof N_ok as HL. unfold rd_P. destruct fl.
     - apply bind_err. unfold wr_P in E. eapply rd_vec_u8_pf; eauto.
-      rewrite pow256 in Hm by lia. pose proof (le_bytes_min_len wire_lim m ltac:(lia) Hm). lia.
+      rewrite pow256 in Hm by lia. pose proof (le_bytes_min_len N m ltac:(lia) Hm). lia.
     - apply bind_err. rewrite wr_P_malachite in E.
       pose proof (be_digits_ok m) as Hok. unfold bytes_ok in Hok. rewrite Forall_forall in Hok.
       eapply (rd_vec_pf 2 rd_u16 u16le (fun d => d)); eauto.
-      + rewrite pow256 in Hm by lia. pose proof (be_digits_len wire_lim m ltac:(lia) Hm). lia.
+      + rewrite pow256 in Hm by lia. pose proof (be_digits_len N m ltac:(lia) Hm). lia.
       + intros a r Ha. apply digit_u16, Hok, Ha.
       + intros a b' x' Ha Hx' E'. apply rd_u16_short.
         assert (L : length (b' ++ x') = 2%nat) by (rewrite E'; apply u16le_len).
         rewrite app_length in L. destruct x'; [congruence|cbn [length] in L; lia].
   Qed.
+
+  (* ======================================================================================== *)
+  (* generic StrandVector codec                                                               *)
+  (* ======================================================================================== *)
+  (* honest vectors: u32 count, every item valid and short enough for its own u32 length prefix *)
+  Definition vvec {A} (v : A -> Prop) (wr : A -> bytes) (l : list A) : Prop :=
+    Z.of_nat (length l) < 2 ^ 32 /\ Forall (fun a => v a /\ Z.of_nat (length (wr a)) < 2 ^ 32) l.
+
+  Lemma vvec_intro {A} (v : A -> Prop) (wr : A -> bytes) bound l :
+    (forall a, v a -> Z.of_nat (length (wr a)) <= bound) -> bound < 2 ^ 32 ->
+    Z.of_nat (length l) < 2 ^ 32 -> Forall v l -> vvec v wr l.
+  Proof. try clear q_le. try clear p_small. try clear N_ok. try clear N. try clear p_gt1.
+    intros Hb Hbd Hl Hf. split; [exact Hl|]. rewrite Forall_forall in *. intros a Ha.
+    split; [apply Hf, Ha|]. specialize (Hb a (Hf a Ha)). lia.
+  Qed.
+
+  Lemma vvec_forall {A} (v : A -> Prop) wr l : vvec v wr l -> Forall v l.
+  Proof. try clear q_le. try clear p_small. try clear N_ok. try clear N. try clear p_gt1. intros [_ H]. rewrite Forall_forall in *. intros a Ha. apply H, Ha. Qed.
+
+  Lemma rt_svec {A} (v : A -> Prop) wr rd : RT v wr rd -> RT (vvec v wr) (wr_svec wr) (rd_svec rd).
+  Proof. try clear q_le. try clear p_small. try clear N_ok. try clear N. try clear p_gt1.
+    intros H l rest [Hl Hf]. unfold rd_svec, wr_svec. rewrite Forall_forall in Hf.
+    rewrite (rd_vec_app 4 rd_vec_u8 (fun a => wr_vec_u8 (wr a)) wr).
+    - cbn [bind]. rewrite (mapM_ok (strict rd) wr); [reflexivity|].
+      intros b Hb. apply (rt_de _ _ _ H), Hf, Hb.
+    - exact Hl.
+    - intros a _. rewrite wr_vec_u8_len. lia.
+    - intros a r Ha. apply rd_vec_u8_app. apply Hf, Ha.
+  Qed.
+
+  Lemma val_svec {A} (v : A -> Prop) rd : VAL v rd -> VAL (Forall v) (rd_svec rd).
+  Proof. try clear q_le. try clear p_small. try clear N_ok. try clear N. try clear p_gt1.
+    intros H bs l r Hok E. unfold rd_svec in E. binv E. injection E as <- <-.
+    destruct (rd_vec_inv 4 rd_vec_u8 bytes_ok bytes_ok) with (4 := E0) as (Hitems & Hr & _).
+    - intros x y Hxy. apply bytes_ok_app in Hxy. tauto.
+    - intros bs' it r' Hok' Eb. destruct (rd_vec_u8_ok _ _ _ Hok' Eb) as (? & ? & _). split; assumption.
+    - exact Hok.
+    - split; [|exact Hr]. eapply (mapM_inv (strict rd) bytes_ok v); [|exact Hitems|exact E1].
+      intros it y Hit Es. apply strict_inv in Es. exact (proj1 (H _ _ _ Hit Es)).
+  Qed.
+
+  Lemma val_svec_any {A} (v : A -> Prop) (rd : reader A) :
+    (forall bs a r, rd bs = Ok (a, r) -> v a) ->
+    forall bs l r, rd_svec rd bs = Ok (l, r) -> Forall v l.
+  Proof. try clear q_le. try clear p_small. try clear N_ok. try clear N. try clear p_gt1.
+    intros H bs l r E. unfold rd_svec in E. binv E. injection E as <- <-.
+    destruct (rd_vec_inv 4 rd_vec_u8 (fun _ => True) (fun _ => True)) with (4 := E0) as (Hitems & _ & _);
+      [auto|auto|exact I|].
+    eapply (mapM_inv (strict rd) (fun _ => True) v); [|exact Hitems|exact E1].
+    intros it y _ Es. apply strict_inv in Es. exact (H _ _ _ Es).
+  Qed.
+
+  Lemma np_svec {A} (rd : reader A) : np_reader rd -> np_reader (rd_svec rd).
+  Proof. try clear q_le. try clear p_small. try clear N_ok. try clear N. try clear p_gt1.
+    intros H bs. unfold rd_svec. apply bind_np; [apply rd_vec_np; exact rd_vec_u8_np|].
+    intros [items r]. apply bind_np; [apply mapM_np, strict_np, H|]. discriminate.
+  Qed.
+
+  Lemma pf_svec {A} (v : A -> Prop) wr (rd : reader A) : PF (vvec v wr) (wr_svec wr) (rd_svec rd).
+  Proof. try clear q_le. try clear p_small. try clear N_ok. try clear N. try clear p_gt1.
+    intros l b x [Hl Hf] Hx E. unfold rd_svec. apply bind_err. unfold wr_svec in E.
+    rewrite Forall_forall in Hf.
+    eapply (rd_vec_pf 4 rd_vec_u8 (fun a => wr_vec_u8 (wr a)) wr); eauto.
+    - intros a r Ha. apply rd_vec_u8_app. apply Hf, Ha.
+    - intros a b' x' Ha Hx' E'. eapply rd_vec_u8_pf; eauto. apply Hf, Ha.
+  Qed.
+
+  (* ======================================================================================== *)
+  (* tactics for field-by-field composites                                                    *)
+  (* ======================================================================================== *)
+  Definition v_vecE := vvec vE (wr_E fl).
+  Definition v_vecX := vvec vX (wr_X fl).
+  Definition v_vecP := vvec vP (wr_P fl).
+
+  Theorem rt_vecE : RT v_vecE (wr_vecE fl) (rd_vecE K fl P).
+  Proof using N_ok p_gt1 p_small. try clear q_le. exact (rt_svec _ _ _ rt_E). Qed.
+  Theorem rt_vecX : RT v_vecX (wr_vecX fl) (rd_vecX fl P).
+  Proof using N_ok p_small q_le. try clear p_gt1. exact (rt_svec _ _ _ rt_X). Qed.
+  Theorem rt_vecP : RT v_vecP (wr_vecP fl) (rd_vecP fl).
+  Proof using N_ok. try clear q_le. try clear p_small. try clear p_gt1. exact (rt_svec _ _ _ rt_P). Qed.
+
+  Theorem val_vecE : VAL (Forall vE) (rd_vecE K fl P).
+  Proof using p_gt1. try clear q_le. try clear p_small. try clear N_ok. try clear N. exact (val_svec _ _ val_E). Qed.
+  Theorem val_vecX : VAL (Forall vX) (rd_vecX fl P).
+  Proof. try clear q_le. try clear p_small. try clear N_ok. try clear N. try clear p_gt1. exact (val_svec _ _ val_X). Qed.
+  Theorem val_vecP : VAL (Forall wP) (rd_vecP fl).
+  Proof. try clear q_le. try clear p_small. try clear N_ok. try clear N. try clear p_gt1. exact (val_svec _ _ val_P). Qed.
+  Theorem val_vecE_any bs l r : rd_vecE K fl P bs = Ok (l, r) -> Forall (member P) l.
+  Proof using p_gt1. try clear q_le. try clear p_small. try clear N_ok. try clear N. exact (val_svec_any _ _ val_E_any bs l r). Qed.
+
+  Theorem np_vecE : np_reader (rd_vecE K fl P).
+  Proof. try clear q_le. try clear p_small. try clear N_ok. try clear N. try clear p_gt1. exact (np_svec _ np_E). Qed.
+  Theorem np_vecX : np_reader (rd_vecX fl P).
+  Proof. try clear q_le. try clear p_small. try clear N_ok. try clear N. try clear p_gt1. exact (np_svec _ np_X). Qed.
+  Theorem np_vecP : np_reader (rd_vecP fl).
+  Proof. try clear q_le. try clear p_small. try clear N_ok. try clear N. try clear p_gt1. exact (np_svec _ np_P). Qed.
+
+  Theorem pf_vecE : PF v_vecE (wr_vecE fl) (rd_vecE K fl P).
+  Proof. try clear q_le. try clear p_small. try clear N_ok. try clear N. try clear p_gt1. exact (pf_svec _ _ _). Qed.
+  Theorem pf_vecX : PF v_vecX (wr_vecX fl) (rd_vecX fl P).
+  Proof. try clear q_le. try clear p_small. try clear N_ok. try clear N. try clear p_gt1. exact (pf_svec _ _ _). Qed.
+  Theorem pf_vecP : PF v_vecP (wr_vecP fl) (rd_vecP fl).
+  Proof. try clear q_le. try clear p_small. try clear N_ok. try clear N. try clear p_gt1. exact (pf_svec _ _ _). Qed.
+
+  (* (R): consume the fields one after the other *)
+  Ltac rt_go :=
+    rewrite <- ?app_assoc;
+    repeat (first [ rewrite (rt_E _ _) by assumption | rewrite (rt_X _ _) by assumption
+                  | rewrite (rt_vecE _ _) by assumption | rewrite (rt_vecX _ _) by assumption ];
+            cbn [bind]);
+    reflexivity.
+
+  (* (V): invert one bind, apply the field's VAL lemma, thread bytes_ok *)
+  Ltac vstep H Hok :=
+    lazymatch type of H with
+    | bind ?o _ = Ok _ =>
+        let E := fresh "E" in let V := fresh "V" in let Hok' := fresh "Hok" in
+        destruct o as [[? ?]| |] eqn:E; cbn [bind] in H; try discriminate H;
+        first [ destruct (val_E _ _ _ Hok E) as [V Hok'] | destruct (val_X _ _ _ Hok E) as [V Hok']
+              | destruct (val_vecE _ _ _ Hok E) as [V Hok'] | destruct (val_vecX _ _ _ Hok E) as [V Hok'] ];
+        clear Hok E; rename Hok' into Hok
+    end.
+
+  (* (N) *)
+  Ltac np_go :=
+    repeat first [ discriminate
+                 | apply bind_np;
+                   [ first [ apply np_E | apply np_X | apply np_vecE | apply np_vecX ] | intros [? ?] ] ].
+
+  (* (T): E : b ++ x = wr_1 a1 ++ ... ++ wr_n an ++ [] *)
+  Ltac pfstep Hx E :=
+    first [ eapply (pf_step _ _ _ _ _ _ _ _ rt_E pf_E) | eapply (pf_step _ _ _ _ _ _ _ _ rt_X pf_X)
+          | eapply (pf_step _ _ _ _ _ _ _ _ rt_vecE pf_vecE) | eapply (pf_step _ _ _ _ _ _ _ _ rt_vecX pf_vecX) ];
+    [ | exact Hx | exact E | ]; [ assumption | clear E; intros ? E; cbn beta iota ].
+  Ltac pf_end Hx E := apply app_eq_nil in E as [_ E]; congruence.
+  Ltac pf_prep E :=
+    match type of E with _ = ?r => rewrite <- (app_nil_r r) in E end; rewrite <- ?app_assoc in E.
+
+  (* ======================================================================================== *)
+  (* ct                                                                                       *)
+  (* ======================================================================================== *)
+  Definition v_ct (c : ctext B) : Prop := vE (mhr c) /\ vE (gr c).
+
+  Theorem rt_ct : RT v_ct (wr_ct K fl P) (rd_ct K fl P).
+  Proof using N_ok p_gt1 p_small. try clear q_le.
+    intros [a b] rest [Ha Hb]. cbn [mhr gr] in Ha, Hb. unfold rd_ct, wr_ct. cbn [mhr gr]. rt_go.
+  Qed.
+
+  Theorem val_ct : VAL v_ct (rd_ct K fl P).
+  Proof using p_gt1. try clear q_le. try clear p_small. try clear N_ok. try clear N.
+    intros bs c r Hok H. unfold rd_ct in H. do 2 vstep H Hok. injection H as <- <-.
+    split; [split; assumption|assumption].
+  Qed.
+
+  Theorem val_ct_any bs c r : rd_ct K fl P bs = Ok (c, r) -> member P (mhr c) /\ member P (gr c).
+  Proof using p_gt1. try clear q_le. try clear p_small. try clear N_ok. try clear N.
+    unfold rd_ct. intro H. binv H. injection H as <- <-. cbn [mhr gr].
+    split; eapply val_E_any; eauto.
+  Qed.
+
+  Theorem np_ct : np_reader (rd_ct K fl P).
+  Proof. try clear q_le. try clear p_small. try clear N_ok. try clear N. try clear p_gt1. intro bs. unfold rd_ct. np_go. Qed.
+
+  Theorem pf_ct : PF v_ct (wr_ct K fl P) (rd_ct K fl P).
+  Proof using N_ok p_gt1 p_small. try clear q_le.
+    intros [a b] bs x [Ha Hb] Hx E. cbn [mhr gr] in Ha, Hb. unfold wr_ct in E. cbn [mhr gr] in E.
+    pf_prep E. unfold rd_ct.
+    do 2 pfstep Hx E. pf_end Hx E.
+  Qed.
+
+  (* ======================================================================================== *)
+  (* pk, sk                                                                                   *)
+  (* ======================================================================================== *)
+  Theorem rt_pk : RT vE (wr_pk fl) (rd_pk K fl P).
+  Proof using N_ok p_gt1 p_small. try clear q_le. exact rt_E. Qed.
+  Theorem val_pk : VAL vE (rd_pk K fl P).
+  Proof using p_gt1. try clear q_le. try clear p_small. try clear N_ok. try clear N. exact val_E. Qed.
+  Theorem val_pk_any bs a rest : rd_pk K fl P bs = Ok (a, rest) -> member P a.
+  Proof using p_gt1. try clear q_le. try clear p_small. try clear N_ok. try clear N. exact (val_E_any bs a rest). Qed.
+  Theorem np_pk : np_reader (rd_pk K fl P).
+  Proof. try clear q_le. try clear p_small. try clear N_ok. try clear N. try clear p_gt1. exact np_E. Qed.
+  Theorem pf_pk : PF vE (wr_pk fl) (rd_pk K fl P).
+  Proof using N_ok p_small. try clear q_le. try clear p_gt1. exact pf_E. Qed.
+
+  (* PrivateKey { value, pk_element } as a pair *)
+  Definition wr_skp (vp : Z * Z) : bytes := wr_sk fl (fst vp) (snd vp).
+  Definition v_sk (vp : Z * Z) : Prop := vX (fst vp) /\ vE (snd vp).
+
+  Theorem rt_sk : RT v_sk wr_skp (rd_sk K fl P).
+  Proof using N_ok p_gt1 p_small q_le.
+    intros [x e] rest [Hx He]. cbn [fst snd] in Hx, He. unfold rd_sk, wr_skp, wr_sk. cbn [fst snd]. rt_go.
+  Qed.
+
+  Theorem val_sk : VAL v_sk (rd_sk K fl P).
+  Proof using p_gt1. try clear q_le. try clear p_small. try clear N_ok. try clear N.
+    intros bs c r Hok H. unfold rd_sk in H. do 2 vstep H Hok. injection H as <- <-.
+    split; [split; assumption|assumption].
+  Qed.
+
+  Theorem np_sk : np_reader (rd_sk K fl P).
+  Proof. try clear q_le. try clear p_small. try clear N_ok. try clear N. try clear p_gt1. intro bs. unfold rd_sk. np_go. Qed.
+
+  Theorem pf_sk : PF v_sk wr_skp (rd_sk K fl P).
+  Proof using N_ok p_gt1 p_small q_le.
+    intros [a b] bs x [Ha Hb] Hx E. cbn [fst snd] in Ha, Hb. unfold wr_skp, wr_sk in E. cbn [fst snd] in E.
+    pf_prep E. unfold rd_sk. do 2 pfstep Hx E. pf_end Hx E.
+  Qed.
+
+  (* ======================================================================================== *)
+  (* schnorr, cp                                                                              *)
+  (* ======================================================================================== *)
+  Definition v_schnorr (s : schnorr B) : Prop :=
+    vE (s_com B s) /\ vX (s_chal B s) /\ vX (s_resp B s).
+
+  Theorem rt_schnorr : RT v_schnorr (wr_schnorr K fl P) (rd_schnorr K fl P).
+  Proof using N_ok p_gt1 p_small q_le.
+    intros [a c s] rest (Ha & Hc & Hs). cbn [s_com s_chal s_resp] in Ha, Hc, Hs.
+    unfold rd_schnorr, wr_schnorr. cbn [s_com s_chal s_resp]. rt_go.
+  Qed.
+
+  Theorem val_schnorr : VAL v_schnorr (rd_schnorr K fl P).
+  Proof using p_gt1. try clear q_le. try clear p_small. try clear N_ok. try clear N.
+    intros bs c r Hok H. unfold rd_schnorr in H. do 3 vstep H Hok. injection H as <- <-.
+    split; [repeat (split; [assumption|]); assumption|assumption].
+  Qed.
+
+  Theorem np_schnorr : np_reader (rd_schnorr K fl P).
+  Proof. try clear q_le. try clear p_small. try clear N_ok. try clear N. try clear p_gt1. intro bs. unfold rd_schnorr. np_go. Qed.
+
+  Theorem pf_schnorr : PF v_schnorr (wr_schnorr K fl P) (rd_schnorr K fl P).
+  Proof using N_ok p_gt1 p_small q_le.
+    intros [a c s] bs x (Ha & Hc & Hs) Hx E. cbn [s_com s_chal s_resp] in Ha, Hc, Hs.
+    unfold wr_schnorr in E. cbn [s_com s_chal s_resp] in E.
+    pf_prep E. unfold rd_schnorr. do 3 pfstep Hx E. pf_end Hx E.
+  Qed.
+
+  Definition v_cp (s : cproof B) : Prop :=
+    vE (c_com1 B s) /\ vE (c_com2 B s) /\ vX (c_chal B s) /\ vX (c_resp B s).
+
+  Theorem rt_cp : RT v_cp (wr_cp K fl P) (rd_cp K fl P).
+  Proof using N_ok p_gt1 p_small q_le.
+    intros [a b c s] rest (Ha & Hb & Hc & Hs). cbn [c_com1 c_com2 c_chal c_resp] in Ha, Hb, Hc, Hs.
+    unfold rd_cp, wr_cp. cbn [c_com1 c_com2 c_chal c_resp]. rt_go.
+  Qed.
+
+  Theorem val_cp : VAL v_cp (rd_cp K fl P).
+  Proof using p_gt1. try clear q_le. try clear p_small. try clear N_ok. try clear N.
+    intros bs c r Hok H. unfold rd_cp in H. do 4 vstep H Hok. injection H as <- <-.
+    split; [repeat (split; [assumption|]); assumption|assumption].
+  Qed.
+
+  Theorem np_cp : np_reader (rd_cp K fl P).
+  Proof. try clear q_le. try clear p_small. try clear N_ok. try clear N. try clear p_gt1. intro bs. unfold rd_cp. np_go. Qed.
+
+  Theorem pf_cp : PF v_cp (wr_cp K fl P) (rd_cp K fl P).
+  Proof using N_ok p_gt1 p_small q_le.
+    intros [a b' c s] bs x (Ha & Hb & Hc & Hs) Hx E. cbn [c_com1 c_com2 c_chal c_resp] in Ha, Hb, Hc, Hs.
+    unfold wr_cp in E. cbn [c_com1 c_com2 c_chal c_resp] in E.
+    pf_prep E. unfold rd_cp. do 4 pfstep Hx E. pf_end Hx E.
+  Qed.
+
+  (* ======================================================================================== *)
+  (* vectors of composites                                                                    *)
+  (* ======================================================================================== *)
+  Definition v_vecC := vvec v_ct (wr_ct K fl P).
+  Definition v_vecCP := vvec v_cp (wr_cp K fl P).
+
+  Theorem rt_vecC : RT v_vecC (wr_vecC K fl P) (rd_vecC K fl P).
+  Proof using N_ok p_gt1 p_small. try clear q_le. exact (rt_svec _ _ _ rt_ct). Qed.
+  Theorem rt_vecCP : RT v_vecCP (wr_vecCP K fl P) (rd_vecCP K fl P).
+  Proof using N_ok p_gt1 p_small q_le. exact (rt_svec _ _ _ rt_cp). Qed.
+  Theorem val_vecC : VAL (Forall v_ct) (rd_vecC K fl P).
+  Proof using p_gt1. try clear q_le. try clear p_small. try clear N_ok. try clear N. exact (val_svec _ _ val_ct). Qed.
+  Theorem val_vecCP : VAL (Forall v_cp) (rd_vecCP K fl P).
+  Proof using p_gt1. try clear q_le. try clear p_small. try clear N_ok. try clear N. exact (val_svec _ _ val_cp). Qed.
+  Theorem val_vecC_any bs l r : rd_vecC K fl P bs = Ok (l, r) ->
+    Forall (fun c : ctext B => member P (mhr c) /\ member P (gr c)) l.
+  Proof using p_gt1. try clear q_le. try clear p_small. try clear N_ok. try clear N. exact (val_svec_any _ _ val_ct_any bs l r). Qed.
+  Theorem np_vecC : np_reader (rd_vecC K fl P).
+  Proof. try clear q_le. try clear p_small. try clear N_ok. try clear N. try clear p_gt1. exact (np_svec _ np_ct). Qed.
+  Theorem np_vecCP : np_reader (rd_vecCP K fl P).
+  Proof. try clear q_le. try clear p_small. try clear N_ok. try clear N. try clear p_gt1. exact (np_svec _ np_cp). Qed.
+  Theorem pf_vecC : PF v_vecC (wr_vecC K fl P) (rd_vecC K fl P).
+  Proof. try clear q_le. try clear p_small. try clear N_ok. try clear N. try clear p_gt1. exact (pf_svec _ _ _). Qed.
+  Theorem pf_vecCP : PF v_vecCP (wr_vecCP K fl P) (rd_vecCP K fl P).
+  Proof. try clear q_le. try clear p_small. try clear N_ok. try clear N. try clear p_gt1. exact (pf_svec _ _ _). Qed.
+
+  (* ======================================================================================== *)
+  (* ShuffleProof                                                                             *)
+  (* ======================================================================================== *)
+  (* honest proofs (what the writer is given) *)
+  Definition v_proof (w : sproof) : Prop :=
+    vE (sp_t1 w) /\ vE (sp_t2 w) /\ vE (sp_t3 w) /\ vE (sp_t41 w) /\ vE (sp_t42 w) /\
+    v_vecE (sp_t_hats w) /\
+    vX (sp_s1 w) /\ vX (sp_s2 w) /\ vX (sp_s3 w) /\ vX (sp_s4 w) /\
+    v_vecX (sp_s_hats w) /\ v_vecX (sp_s_primes w) /\
+    v_vecE (sp_cs w) /\ v_vecE (sp_c_hats w).
+
+  (* what every decoded proof satisfies *)
+  Definition w_proof (w : sproof) : Prop :=
+    vE (sp_t1 w) /\ vE (sp_t2 w) /\ vE (sp_t3 w) /\ vE (sp_t41 w) /\ vE (sp_t42 w) /\
+    Forall vE (sp_t_hats w) /\
+    vX (sp_s1 w) /\ vX (sp_s2 w) /\ vX (sp_s3 w) /\ vX (sp_s4 w) /\
+    Forall vX (sp_s_hats w) /\ Forall vX (sp_s_primes w) /\
+    Forall vE (sp_cs w) /\ Forall vE (sp_c_hats w).
+
+  Lemma v_proof_w_proof w : v_proof w -> w_proof w.
+  Proof. try clear q_le. try clear p_small. try clear N_ok. try clear N. try clear p_gt1.
+    intros (H1 & H2 & H3 & H4 & H5 & H6 & H7 & H8 & H9 & H10 & H11 & H12 & H13 & H14).
+    unfold w_proof; repeat (split; [first [assumption | eapply vvec_forall; eassumption]|]); eapply vvec_forall; eassumption.
+  Qed.
+
+  Ltac sp_cbn := cbn [sp_t1 sp_t2 sp_t3 sp_t41 sp_t42 sp_t_hats sp_s1 sp_s2 sp_s3 sp_s4 sp_s_hats
+                      sp_s_primes sp_cs sp_c_hats].
+  Ltac sp_cbn_in H := cbn [sp_t1 sp_t2 sp_t3 sp_t41 sp_t42 sp_t_hats sp_s1 sp_s2 sp_s3 sp_s4 sp_s_hats
+                      sp_s_primes sp_cs sp_c_hats] in H.
+
+  Theorem rt_proof : RT v_proof (wr_proof fl) (rd_proof K fl P).
+  Proof using N_ok p_gt1 p_small q_le.
+    intros w rest Hw. destruct w. unfold v_proof in Hw. sp_cbn_in Hw.
+    destruct Hw as (H1 & H2 & H3 & H4 & H5 & H6 & H7 & H8 & H9 & H10 & H11 & H12 & H13 & H14).
+    unfold rd_proof, wr_proof. sp_cbn. rt_go.
+  Qed.
+
+  Theorem val_proof : VAL w_proof (rd_proof K fl P).
+  Proof using p_gt1. try clear q_le. try clear p_small. try clear N_ok. try clear N.
+    intros bs c r Hok H. unfold rd_proof in H. do 14 vstep H Hok. injection H as <- <-.
+    split; [unfold w_proof; sp_cbn; repeat (split; [assumption|]); assumption|assumption].
+  Qed.
+
+  Theorem np_proof : np_reader (rd_proof K fl P).
+  Proof. try clear q_le. try clear p_small. try clear N_ok. try clear N. try clear p_gt1. intro bs. unfold rd_proof. np_go. Qed.
+
+  Theorem pf_proof : PF v_proof (wr_proof fl) (rd_proof K fl P).
+  Proof using N_ok p_gt1 p_small q_le.
+    intros w bs x Hw Hx E. destruct w. unfold v_proof in Hw. sp_cbn_in Hw.
+    destruct Hw as (H1 & H2 & H3 & H4 & H5 & H6 & H7 & H8 & H9 & H10 & H11 & H12 & H13 & H14).
+    unfold wr_proof in E. sp_cbn_in E. pf_prep E. unfold rd_proof.
+    do 14 pfstep Hx E. pf_end Hx E.
+  Qed.
+
+  (* ======================================================================================== *)
+  (* named consequences for every wire type (strict top-level decoders; for the StrandVector   *)
+  (* instances, which have no de_* in Model/Wire.v, the strict decoder is [strict rd_vec*])    *)
+  (* ======================================================================================== *)
+  (* ---- E ---- *)
+  Theorem de_ser_E a : vE a -> de_E K fl P (wr_E fl a) = Ok a.
+  Proof using N_ok p_gt1 p_small. try clear q_le. exact (rt_de _ _ _ rt_E a). Qed.
+  Theorem de_trailing_E a rest : vE a -> rest <> [] -> de_E K fl P (wr_E fl a ++ rest) = Err.
+  Proof using N_ok p_gt1 p_small. try clear q_le. exact (rt_trailing _ _ _ rt_E a rest). Qed.
+  Theorem ser_inj_E a b : vE a -> vE b -> wr_E fl a = wr_E fl b -> a = b.
+  Proof using K N_ok p_gt1 p_small. try clear q_le. exact (rt_inj _ _ _ rt_E a b). Qed.
+  Theorem de_val_E bs a : bytes_ok bs -> de_E K fl P bs = Ok a -> vE a.
+  Proof using p_gt1. try clear q_le. try clear p_small. try clear N_ok. try clear N. intros Hok H. apply strict_inv in H. exact (proj1 (val_E _ _ _ Hok H)). Qed.
+  Theorem de_np_E bs : de_E K fl P bs <> Panic.
+  Proof. try clear q_le. try clear p_small. try clear N_ok. try clear N. try clear p_gt1. exact (strict_np _ np_E bs). Qed.
+  Theorem de_trunc_E a b : vE a -> (exists x, x <> [] /\ b ++ x = wr_E fl a) -> de_E K fl P b = Err.
+  Proof using N_ok p_small. try clear q_le. try clear p_gt1. exact (pf_de _ _ _ pf_E a b). Qed.
+  (* ---- X ---- *)
+  Theorem de_ser_X a : vX a -> de_X fl P (wr_X fl a) = Ok a.
+  Proof using N_ok p_small q_le. try clear p_gt1. exact (rt_de _ _ _ rt_X a). Qed.
+  Theorem de_trailing_X a rest : vX a -> rest <> [] -> de_X fl P (wr_X fl a ++ rest) = Err.
+  Proof using N_ok p_small q_le. try clear p_gt1. exact (rt_trailing _ _ _ rt_X a rest). Qed.
+  Theorem ser_inj_X a b : vX a -> vX b -> wr_X fl a = wr_X fl b -> a = b.
+  Proof using N_ok p_small q_le. try clear p_gt1. exact (rt_inj _ _ _ rt_X a b). Qed.
+  Theorem de_val_X bs a : bytes_ok bs -> de_X fl P bs = Ok a -> vX a.
+  Proof. try clear q_le. try clear p_small. try clear N_ok. try clear N. try clear p_gt1. intros Hok H. apply strict_inv in H. exact (proj1 (val_X _ _ _ Hok H)). Qed.
+  Theorem de_np_X bs : de_X fl P bs <> Panic.
+  Proof. try clear q_le. try clear p_small. try clear N_ok. try clear N. try clear p_gt1. exact (strict_np _ np_X bs). Qed.
+  Theorem de_trunc_X a b : vX a -> (exists x, x <> [] /\ b ++ x = wr_X fl a) -> de_X fl P b = Err.
+  Proof using N_ok p_small q_le. try clear p_gt1. exact (pf_de _ _ _ pf_X a b). Qed.
+  (* ---- P ---- *)
+  Theorem de_ser_P a : vP a -> de_P fl (wr_P fl a) = Ok a.
+  Proof using N_ok. try clear q_le. try clear p_small. try clear p_gt1. exact (rt_de _ _ _ rt_P a). Qed.
+  Theorem de_trailing_P a rest : vP a -> rest <> [] -> de_P fl (wr_P fl a ++ rest) = Err.
+  Proof using N_ok. try clear q_le. try clear p_small. try clear p_gt1. exact (rt_trailing _ _ _ rt_P a rest). Qed.
+  Theorem ser_inj_P a b : vP a -> vP b -> wr_P fl a = wr_P fl b -> a = b.
+  Proof using N_ok. try clear q_le. try clear p_small. try clear p_gt1. exact (rt_inj _ _ _ rt_P a b). Qed.
+  Theorem de_val_P bs a : bytes_ok bs -> de_P fl bs = Ok a -> wP a.
+  Proof. try clear q_le. try clear p_small. try clear N_ok. try clear N. try clear p_gt1. intros Hok H. apply strict_inv in H. exact (proj1 (val_P _ _ _ Hok H)). Qed.
+  Theorem de_np_P bs : de_P fl bs <> Panic.
+  Proof. try clear q_le. try clear p_small. try clear N_ok. try clear N. try clear p_gt1. exact (strict_np _ np_P bs). Qed.
+  Theorem de_trunc_P a b : vP a -> (exists x, x <> [] /\ b ++ x = wr_P fl a) -> de_P fl b = Err.
+  Proof using N_ok. try clear q_le. try clear p_small. try clear p_gt1. exact (pf_de _ _ _ pf_P a b). Qed.
+  (* ---- ct ---- *)
+  Theorem de_ser_ct a : v_ct a -> de_ct K fl P (wr_ct K fl P a) = Ok a.
+  Proof using N_ok p_gt1 p_small. try clear q_le. exact (rt_de _ _ _ rt_ct a). Qed.
+  Theorem de_trailing_ct a rest : v_ct a -> rest <> [] -> de_ct K fl P (wr_ct K fl P a ++ rest) = Err.
+  Proof using N_ok p_gt1 p_small. try clear q_le. exact (rt_trailing _ _ _ rt_ct a rest). Qed.
+  Theorem ser_inj_ct a b : v_ct a -> v_ct b -> wr_ct K fl P a = wr_ct K fl P b -> a = b.
+  Proof using N_ok p_gt1 p_small. try clear q_le. exact (rt_inj _ _ _ rt_ct a b). Qed.
+  Theorem de_val_ct bs a : bytes_ok bs -> de_ct K fl P bs = Ok a -> v_ct a.
+  Proof using p_gt1. try clear q_le. try clear p_small. try clear N_ok. try clear N. intros Hok H. apply strict_inv in H. exact (proj1 (val_ct _ _ _ Hok H)). Qed.
+  Theorem de_np_ct bs : de_ct K fl P bs <> Panic.
+  Proof. try clear q_le. try clear p_small. try clear N_ok. try clear N. try clear p_gt1. exact (strict_np _ np_ct bs). Qed.
+  Theorem de_trunc_ct a b : v_ct a -> (exists x, x <> [] /\ b ++ x = wr_ct K fl P a) -> de_ct K fl P b = Err.
+  Proof using N_ok p_gt1 p_small. try clear q_le. exact (pf_de _ _ _ pf_ct a b). Qed.
+  (* ---- pk ---- *)
+  Theorem de_ser_pk a : vE a -> de_pk K fl P (wr_pk fl a) = Ok a.
+  Proof using N_ok p_gt1 p_small. try clear q_le. exact (rt_de _ _ _ rt_pk a). Qed.
+  Theorem de_trailing_pk a rest : vE a -> rest <> [] -> de_pk K fl P (wr_pk fl a ++ rest) = Err.
+  Proof using N_ok p_gt1 p_small. try clear q_le. exact (rt_trailing _ _ _ rt_pk a rest). Qed.
+  Theorem ser_inj_pk a b : vE a -> vE b -> wr_pk fl a = wr_pk fl b -> a = b.
+  Proof using K N_ok p_gt1 p_small. try clear q_le. exact (rt_inj _ _ _ rt_pk a b). Qed.
+  Theorem de_val_pk bs a : bytes_ok bs -> de_pk K fl P bs = Ok a -> vE a.
+  Proof using p_gt1. try clear q_le. try clear p_small. try clear N_ok. try clear N. intros Hok H. apply strict_inv in H. exact (proj1 (val_pk _ _ _ Hok H)). Qed.
+  Theorem de_np_pk bs : de_pk K fl P bs <> Panic.
+  Proof. try clear q_le. try clear p_small. try clear N_ok. try clear N. try clear p_gt1. exact (strict_np _ np_pk bs). Qed.
+  Theorem de_trunc_pk a b : vE a -> (exists x, x <> [] /\ b ++ x = wr_pk fl a) -> de_pk K fl P b = Err.
+  Proof using N_ok p_small. try clear q_le. try clear p_gt1. exact (pf_de _ _ _ pf_pk a b). Qed.
+  (* ---- sk ---- *)
+  Theorem de_ser_sk a : v_sk a -> de_sk K fl P (wr_skp a) = Ok a.
+  Proof using N_ok p_gt1 p_small q_le. exact (rt_de _ _ _ rt_sk a). Qed.
+  Theorem de_trailing_sk a rest : v_sk a -> rest <> [] -> de_sk K fl P (wr_skp a ++ rest) = Err.
+  Proof using N_ok p_gt1 p_small q_le. exact (rt_trailing _ _ _ rt_sk a rest). Qed.
+  Theorem ser_inj_sk a b : v_sk a -> v_sk b -> wr_skp a = wr_skp b -> a = b.
+  Proof using K N_ok p_gt1 p_small q_le. exact (rt_inj _ _ _ rt_sk a b). Qed.
+  Theorem de_val_sk bs a : bytes_ok bs -> de_sk K fl P bs = Ok a -> v_sk a.
+  Proof using p_gt1. try clear q_le. try clear p_small. try clear N_ok. try clear N. intros Hok H. apply strict_inv in H. exact (proj1 (val_sk _ _ _ Hok H)). Qed.
+  Theorem de_np_sk bs : de_sk K fl P bs <> Panic.
+  Proof. try clear q_le. try clear p_small. try clear N_ok. try clear N. try clear p_gt1. exact (strict_np _ np_sk bs). Qed.
+  Theorem de_trunc_sk a b : v_sk a -> (exists x, x <> [] /\ b ++ x = wr_skp a) -> de_sk K fl P b = Err.
+  Proof using N_ok p_gt1 p_small q_le. exact (pf_de _ _ _ pf_sk a b). Qed.
+  (* ---- schnorr ---- *)
+  Theorem de_ser_schnorr a : v_schnorr a -> de_schnorr K fl P (wr_schnorr K fl P a) = Ok a.
+  Proof using N_ok p_gt1 p_small q_le. exact (rt_de _ _ _ rt_schnorr a). Qed.
+  Theorem de_trailing_schnorr a rest : v_schnorr a -> rest <> [] -> de_schnorr K fl P (wr_schnorr K fl P a ++ rest) = Err.
+  Proof using N_ok p_gt1 p_small q_le. exact (rt_trailing _ _ _ rt_schnorr a rest). Qed.
+  Theorem ser_inj_schnorr a b : v_schnorr a -> v_schnorr b -> wr_schnorr K fl P a = wr_schnorr K fl P b -> a = b.
+  Proof using N_ok p_gt1 p_small q_le. exact (rt_inj _ _ _ rt_schnorr a b). Qed.
+  Theorem de_val_schnorr bs a : bytes_ok bs -> de_schnorr K fl P bs = Ok a -> v_schnorr a.
+  Proof using p_gt1. try clear q_le. try clear p_small. try clear N_ok. try clear N. intros Hok H. apply strict_inv in H. exact (proj1 (val_schnorr _ _ _ Hok H)). Qed.
+  Theorem de_np_schnorr bs : de_schnorr K fl P bs <> Panic.
+  Proof. try clear q_le. try clear p_small. try clear N_ok. try clear N. try clear p_gt1. exact (strict_np _ np_schnorr bs). Qed.
+  Theorem de_trunc_schnorr a b : v_schnorr a -> (exists x, x <> [] /\ b ++ x = wr_schnorr K fl P a) -> de_schnorr K fl P b = Err.
+  Proof using N_ok p_gt1 p_small q_le. exact (pf_de _ _ _ pf_schnorr a b). Qed.
+  (* ---- cp ---- *)
+  Theorem de_ser_cp a : v_cp a -> de_cp K fl P (wr_cp K fl P a) = Ok a.
+  Proof using N_ok p_gt1 p_small q_le. exact (rt_de _ _ _ rt_cp a). Qed.
+  Theorem de_trailing_cp a rest : v_cp a -> rest <> [] -> de_cp K fl P (wr_cp K fl P a ++ rest) = Err.
+  Proof using N_ok p_gt1 p_small q_le. exact (rt_trailing _ _ _ rt_cp a rest). Qed.
+  Theorem ser_inj_cp a b : v_cp a -> v_cp b -> wr_cp K fl P a = wr_cp K fl P b -> a = b.
+  Proof using N_ok p_gt1 p_small q_le. exact (rt_inj _ _ _ rt_cp a b). Qed.
+  Theorem de_val_cp bs a : bytes_ok bs -> de_cp K fl P bs = Ok a -> v_cp a.
+  Proof using p_gt1. try clear q_le. try clear p_small. try clear N_ok. try clear N. intros Hok H. apply strict_inv in H. exact (proj1 (val_cp _ _ _ Hok H)). Qed.
+  Theorem de_np_cp bs : de_cp K fl P bs <> Panic.
+  Proof. try clear q_le. try clear p_small. try clear N_ok. try clear N. try clear p_gt1. exact (strict_np _ np_cp bs). Qed.
+  Theorem de_trunc_cp a b : v_cp a -> (exists x, x <> [] /\ b ++ x = wr_cp K fl P a) -> de_cp K fl P b = Err.
+  Proof using N_ok p_gt1 p_small q_le. exact (pf_de _ _ _ pf_cp a b). Qed.
+  (* ---- vecE ---- *)
+  Theorem de_ser_vecE a : v_vecE a -> strict (rd_vecE K fl P) (wr_vecE fl a) = Ok a.
+  Proof using N_ok p_gt1 p_small. try clear q_le. exact (rt_de _ _ _ rt_vecE a). Qed.
+  Theorem de_trailing_vecE a rest : v_vecE a -> rest <> [] -> strict (rd_vecE K fl P) (wr_vecE fl a ++ rest) = Err.
+  Proof using N_ok p_gt1 p_small. try clear q_le. exact (rt_trailing _ _ _ rt_vecE a rest). Qed.
+  Theorem ser_inj_vecE a b : v_vecE a -> v_vecE b -> wr_vecE fl a = wr_vecE fl b -> a = b.
+  Proof using K N_ok p_gt1 p_small. try clear q_le. exact (rt_inj _ _ _ rt_vecE a b). Qed.
+  Theorem de_val_vecE bs a : bytes_ok bs -> strict (rd_vecE K fl P) bs = Ok a -> Forall vE a.
+  Proof using p_gt1. try clear q_le. try clear p_small. try clear N_ok. try clear N. intros Hok H. apply strict_inv in H. exact (proj1 (val_vecE _ _ _ Hok H)). Qed.
+  Theorem de_np_vecE bs : strict (rd_vecE K fl P) bs <> Panic.
+  Proof. try clear q_le. try clear p_small. try clear N_ok. try clear N. try clear p_gt1. exact (strict_np _ np_vecE bs). Qed.
+  Theorem de_trunc_vecE a b : v_vecE a -> (exists x, x <> [] /\ b ++ x = wr_vecE fl a) -> strict (rd_vecE K fl P) b = Err.
+  Proof. try clear q_le. try clear p_small. try clear N_ok. try clear N. try clear p_gt1. exact (pf_de _ _ _ pf_vecE a b). Qed.
+  (* ---- vecX ---- *)
+  Theorem de_ser_vecX a : v_vecX a -> strict (rd_vecX fl P) (wr_vecX fl a) = Ok a.
+  Proof using N_ok p_small q_le. try clear p_gt1. exact (rt_de _ _ _ rt_vecX a). Qed.
+  Theorem de_trailing_vecX a rest : v_vecX a -> rest <> [] -> strict (rd_vecX fl P) (wr_vecX fl a ++ rest) = Err.
+  Proof using N_ok p_small q_le. try clear p_gt1. exact (rt_trailing _ _ _ rt_vecX a rest). Qed.
+  Theorem ser_inj_vecX a b : v_vecX a -> v_vecX b -> wr_vecX fl a = wr_vecX fl b -> a = b.
+  Proof using N_ok p_small q_le. try clear p_gt1. exact (rt_inj _ _ _ rt_vecX a b). Qed.
+  Theorem de_val_vecX bs a : bytes_ok bs -> strict (rd_vecX fl P) bs = Ok a -> Forall vX a.
+  Proof. try clear q_le. try clear p_small. try clear N_ok. try clear N. try clear p_gt1. intros Hok H. apply strict_inv in H. exact (proj1 (val_vecX _ _ _ Hok H)). Qed.
+  Theorem de_np_vecX bs : strict (rd_vecX fl P) bs <> Panic.
+  Proof. try clear q_le. try clear p_small. try clear N_ok. try clear N. try clear p_gt1. exact (strict_np _ np_vecX bs). Qed.
+  Theorem de_trunc_vecX a b : v_vecX a -> (exists x, x <> [] /\ b ++ x = wr_vecX fl a) -> strict (rd_vecX fl P) b = Err.
+  Proof. try clear q_le. try clear p_small. try clear N_ok. try clear N. try clear p_gt1. exact (pf_de _ _ _ pf_vecX a b). Qed.
+  (* ---- vecC ---- *)
+  Theorem de_ser_vecC a : v_vecC a -> strict (rd_vecC K fl P) (wr_vecC K fl P a) = Ok a.
+  Proof using N_ok p_gt1 p_small. try clear q_le. exact (rt_de _ _ _ rt_vecC a). Qed.
+  Theorem de_trailing_vecC a rest : v_vecC a -> rest <> [] -> strict (rd_vecC K fl P) (wr_vecC K fl P a ++ rest) = Err.
+  Proof using N_ok p_gt1 p_small. try clear q_le. exact (rt_trailing _ _ _ rt_vecC a rest). Qed.
+  Theorem ser_inj_vecC a b : v_vecC a -> v_vecC b -> wr_vecC K fl P a = wr_vecC K fl P b -> a = b.
+  Proof using N_ok p_gt1 p_small. try clear q_le. exact (rt_inj _ _ _ rt_vecC a b). Qed.
+  Theorem de_val_vecC bs a : bytes_ok bs -> strict (rd_vecC K fl P) bs = Ok a -> Forall v_ct a.
+  Proof using p_gt1. try clear q_le. try clear p_small. try clear N_ok. try clear N. intros Hok H. apply strict_inv in H. exact (proj1 (val_vecC _ _ _ Hok H)). Qed.
+  Theorem de_np_vecC bs : strict (rd_vecC K fl P) bs <> Panic.
+  Proof. try clear q_le. try clear p_small. try clear N_ok. try clear N. try clear p_gt1. exact (strict_np _ np_vecC bs). Qed.
+  Theorem de_trunc_vecC a b : v_vecC a -> (exists x, x <> [] /\ b ++ x = wr_vecC K fl P a) -> strict (rd_vecC K fl P) b = Err.
+  Proof. try clear q_le. try clear p_small. try clear N_ok. try clear N. try clear p_gt1. exact (pf_de _ _ _ pf_vecC a b). Qed.
+  (* ---- vecP ---- *)
+  Theorem de_ser_vecP a : v_vecP a -> strict (rd_vecP fl) (wr_vecP fl a) = Ok a.
+  Proof using N_ok. try clear q_le. try clear p_small. try clear p_gt1. exact (rt_de _ _ _ rt_vecP a). Qed.
+  Theorem de_trailing_vecP a rest : v_vecP a -> rest <> [] -> strict (rd_vecP fl) (wr_vecP fl a ++ rest) = Err.
+  Proof using N_ok. try clear q_le. try clear p_small. try clear p_gt1. exact (rt_trailing _ _ _ rt_vecP a rest). Qed.
+  Theorem ser_inj_vecP a b : v_vecP a -> v_vecP b -> wr_vecP fl a = wr_vecP fl b -> a = b.
+  Proof using N_ok. try clear q_le. try clear p_small. try clear p_gt1. exact (rt_inj _ _ _ rt_vecP a b). Qed.
+  Theorem de_val_vecP bs a : bytes_ok bs -> strict (rd_vecP fl) bs = Ok a -> Forall wP a.
+  Proof. try clear q_le. try clear p_small. try clear N_ok. try clear N. try clear p_gt1. intros Hok H. apply strict_inv in H. exact (proj1 (val_vecP _ _ _ Hok H)). Qed.
+  Theorem de_np_vecP bs : strict (rd_vecP fl) bs <> Panic.
+  Proof. try clear q_le. try clear p_small. try clear N_ok. try clear N. try clear p_gt1. exact (strict_np _ np_vecP bs). Qed.
+  Theorem de_trunc_vecP a b : v_vecP a -> (exists x, x <> [] /\ b ++ x = wr_vecP fl a) -> strict (rd_vecP fl) b = Err.
+  Proof. try clear q_le. try clear p_small. try clear N_ok. try clear N. try clear p_gt1. exact (pf_de _ _ _ pf_vecP a b). Qed.
+  (* ---- vecCP ---- *)
+  Theorem de_ser_vecCP a : v_vecCP a -> strict (rd_vecCP K fl P) (wr_vecCP K fl P a) = Ok a.
+  Proof using N_ok p_gt1 p_small q_le. exact (rt_de _ _ _ rt_vecCP a). Qed.
+  Theorem de_trailing_vecCP a rest : v_vecCP a -> rest <> [] -> strict (rd_vecCP K fl P) (wr_vecCP K fl P a ++ rest) = Err.
+  Proof using N_ok p_gt1 p_small q_le. exact (rt_trailing _ _ _ rt_vecCP a rest). Qed.
+  Theorem ser_inj_vecCP a b : v_vecCP a -> v_vecCP b -> wr_vecCP K fl P a = wr_vecCP K fl P b -> a = b.
+  Proof using N_ok p_gt1 p_small q_le. exact (rt_inj _ _ _ rt_vecCP a b). Qed.
+  Theorem de_val_vecCP bs a : bytes_ok bs -> strict (rd_vecCP K fl P) bs = Ok a -> Forall v_cp a.
+  Proof using p_gt1. try clear q_le. try clear p_small. try clear N_ok. try clear N. intros Hok H. apply strict_inv in H. exact (proj1 (val_vecCP _ _ _ Hok H)). Qed.
+  Theorem de_np_vecCP bs : strict (rd_vecCP K fl P) bs <> Panic.
+  Proof. try clear q_le. try clear p_small. try clear N_ok. try clear N. try clear p_gt1. exact (strict_np _ np_vecCP bs). Qed.
+  Theorem de_trunc_vecCP a b : v_vecCP a -> (exists x, x <> [] /\ b ++ x = wr_vecCP K fl P a) -> strict (rd_vecCP K fl P) b = Err.
+  Proof. try clear q_le. try clear p_small. try clear N_ok. try clear N. try clear p_gt1. exact (pf_de _ _ _ pf_vecCP a b). Qed.
+  (* ---- proof ---- *)
+  Theorem de_ser_proof a : v_proof a -> de_proof K fl P (wr_proof fl a) = Ok a.
+  Proof using N_ok p_gt1 p_small q_le. exact (rt_de _ _ _ rt_proof a). Qed.
+  Theorem de_trailing_proof a rest : v_proof a -> rest <> [] -> de_proof K fl P (wr_proof fl a ++ rest) = Err.
+  Proof using N_ok p_gt1 p_small q_le. exact (rt_trailing _ _ _ rt_proof a rest). Qed.
+  Theorem ser_inj_proof a b : v_proof a -> v_proof b -> wr_proof fl a = wr_proof fl b -> a = b.
+  Proof using K N_ok p_gt1 p_small q_le. exact (rt_inj _ _ _ rt_proof a b). Qed.
+  Theorem de_val_proof bs a : bytes_ok bs -> de_proof K fl P bs = Ok a -> w_proof a.
+  Proof using p_gt1. try clear q_le. try clear p_small. try clear N_ok. try clear N. intros Hok H. apply strict_inv in H. exact (proj1 (val_proof _ _ _ Hok H)). Qed.
+  Theorem de_np_proof bs : de_proof K fl P bs <> Panic.
+  Proof. try clear q_le. try clear p_small. try clear N_ok. try clear N. try clear p_gt1. exact (strict_np _ np_proof bs). Qed.
+  Theorem de_trunc_proof a b : v_proof a -> (exists x, x <> [] /\ b ++ x = wr_proof fl a) -> de_proof K fl P b = Err.
+  Proof using N_ok p_gt1 p_small q_le. exact (pf_de _ _ _ pf_proof a b). Qed.
+
+  (* element-only decoders need no hypothesis on the input at all *)
+  Theorem de_val_E_any bs a : de_E K fl P bs = Ok a -> member P a.
+  Proof using p_gt1. try clear q_le. try clear p_small. try clear N_ok. try clear N. intro H. apply strict_inv in H. exact (val_E_any _ _ _ H). Qed.
+  Theorem de_val_ct_any bs c : de_ct K fl P bs = Ok c -> member P (mhr c) /\ member P (gr c).
+  Proof using p_gt1. try clear q_le. try clear p_small. try clear N_ok. try clear N. intro H. apply strict_inv in H. exact (val_ct_any _ _ _ H). Qed.
+  Theorem de_val_pk_any bs a : de_pk K fl P bs = Ok a -> member P a.
+  Proof using p_gt1. try clear q_le. try clear p_small. try clear N_ok. try clear N. intro H. apply strict_inv in H. exact (val_pk_any _ _ _ H). Qed.
+
+  (* ======================================================================================== *)
+  (* decoded shuffle proofs are well formed                                                   *)
+  (* ======================================================================================== *)
+  Theorem decoded_proof_wf bs w : de_proof K fl P bs = Ok w -> bytes_ok bs ->
+    member P (sp_t1 w) /\ member P (sp_t2 w) /\ member P (sp_t3 w) /\ member P (sp_t41 w) /\
+    member P (sp_t42 w) /\
+    Forall (member P) (sp_t_hats w) /\ Forall (member P) (sp_cs w) /\ Forall (member P) (sp_c_hats w) /\
+    0 <= sp_s1 w < q /\ 0 <= sp_s2 w < q /\ 0 <= sp_s3 w < q /\ 0 <= sp_s4 w < q /\
+    Forall (fun x => 0 <= x < q) (sp_s_hats w) /\ Forall (fun x => 0 <= x < q) (sp_s_primes w).
+  Proof using p_gt1. try clear q_le. try clear p_small. try clear N_ok. try clear N.
+    intros H Hok. pose proof (de_val_proof bs w Hok H) as Hw. unfold w_proof, vE, vX in Hw.
+    destruct Hw as (H1 & H2 & H3 & H4 & H5 & H6 & H7 & H8 & H9 & H10 & H11 & H12 & H13 & H14).
+    repeat (split; [assumption|]); assumption.
+  Qed.
+
+  (* ======================================================================================== *)
+  (* encoded sizes: when p fits in N bytes with 4*(4+N) < 2^32, the per-item size conditions  *)
+  (* of the vector validity predicates follow from plain Forall-validity                      *)
+  (* ======================================================================================== *)
+  Lemma wr_E_len a : vE a -> Z.of_nat (length (wr_E fl a)) <= 4 + N.
+  Proof using N_ok p_small. try clear q_le. try clear p_gt1.
+    intro Ha. apply vE_lt in Ha. unfold wr_E, z_ser_int. rewrite wr_vec_u8_len.
+    pose proof (bytes_of_int_len a ltac:(lia)). lia.
+  Qed.
+
+  Lemma wr_X_len x : vX x -> Z.of_nat (length (wr_X fl x)) <= 4 + N.
+  Proof using N_ok p_small q_le. try clear p_gt1.
+    intro Hx. apply vX_lt in Hx. unfold wr_X, z_ser_int. rewrite wr_vec_u8_len.
+    pose proof (bytes_of_int_len x ltac:(lia)). lia.
+  Qed.
+
+  Lemma wr_ct_len c : v_ct c -> Z.of_nat (length (wr_ct K fl P c)) <= 2 * (4 + N).
+  Proof using N_ok p_small. try clear q_le. try clear p_gt1.
+    intros [Ha Hb]. unfold wr_ct. rewrite app_length.
+    pose proof (wr_E_len _ Ha). pose proof (wr_E_len _ Hb). lia.
+  Qed.
+
+  Lemma wr_cp_len c : v_cp c -> Z.of_nat (length (wr_cp K fl P c)) <= 4 * (4 + N).
+  Proof using N_ok p_small q_le. try clear p_gt1.
+    intros (Ha & Hb & Hc & Hs). unfold wr_cp. rewrite !app_length.
+    pose proof (wr_E_len _ Ha). pose proof (wr_E_len _ Hb).
+    pose proof (wr_X_len _ Hc). pose proof (wr_X_len _ Hs). lia.
+  Qed.
+
+  Lemma wr_P_len m : vP m -> Z.of_nat (length (wr_P fl m)) <= 4 + 2 * N.
+  Proof using N_ok. try clear q_le. try clear p_small. try clear p_gt1.
+    intros [Hm0 Hm]. pose proof N_ok as HL. rewrite pow256 in Hm by lia. unfold wr_P. destruct fl.
+    - rewrite wr_vec_u8_len. pose proof (le_bytes_min_len N m ltac:(lia) Hm). lia.
+    - rewrite app_length, u32le_len, (flat_map_const_len u16le 2) by (intro; apply u16le_len).
+      pose proof (be_digits_len N m ltac:(lia) Hm). lia.
+  Qed.
+
+  Theorem v_vecE_intro l : 4 + N < 2 ^ 32 -> Z.of_nat (length l) < 2 ^ 32 -> Forall vE l -> v_vecE l.
+  Proof using N_ok p_small. try clear q_le. try clear p_gt1. intros HN. apply (vvec_intro vE (wr_E fl) (4 + N)); [exact wr_E_len|exact HN]. Qed.
+  Theorem v_vecX_intro l : 4 + N < 2 ^ 32 -> Z.of_nat (length l) < 2 ^ 32 -> Forall vX l -> v_vecX l.
+  Proof using N_ok p_small q_le. try clear p_gt1. intros HN. apply (vvec_intro vX (wr_X fl) (4 + N)); [exact wr_X_len|exact HN]. Qed.
+  Theorem v_vecC_intro l : 2 * (4 + N) < 2 ^ 32 -> Z.of_nat (length l) < 2 ^ 32 -> Forall v_ct l -> v_vecC l.
+  Proof using N_ok p_small. try clear q_le. try clear p_gt1. intros HN. apply (vvec_intro v_ct (wr_ct K fl P) (2 * (4 + N))); [exact wr_ct_len|exact HN]. Qed.
+  Theorem v_vecCP_intro l : 4 * (4 + N) < 2 ^ 32 -> Z.of_nat (length l) < 2 ^ 32 -> Forall v_cp l -> v_vecCP l.
+  Proof using N_ok p_small q_le. try clear p_gt1. intros HN. apply (vvec_intro v_cp (wr_cp K fl P) (4 * (4 + N))); [exact wr_cp_len|exact HN]. Qed.
+  Theorem v_vecP_intro l : 4 + 2 * N < 2 ^ 32 -> Z.of_nat (length l) < 2 ^ 32 -> Forall vP l -> v_vecP l.
+  Proof using N_ok. try clear q_le. try clear p_small. try clear p_gt1. intros HN. apply (vvec_intro vP (wr_P fl) (4 + 2 * N)); [exact wr_P_len|exact HN]. Qed.
+
+  Theorem v_proof_intro w : 4 + N < 2 ^ 32 ->
+    Z.of_nat (length (sp_t_hats w)) < 2 ^ 32 -> Z.of_nat (length (sp_s_hats w)) < 2 ^ 32 ->
+    Z.of_nat (length (sp_s_primes w)) < 2 ^ 32 -> Z.of_nat (length (sp_cs w)) < 2 ^ 32 ->
+    Z.of_nat (length (sp_c_hats w)) < 2 ^ 32 ->
+    w_proof w -> v_proof w.
+  Proof using N_ok p_small q_le. try clear p_gt1.
+    intros HN L1 L2 L3 L4 L5 (H1 & H2 & H3 & H4 & H5 & H6 & H7 & H8 & H9 & H10 & H11 & H12 & H13 & H14).
+    unfold v_proof.
+    repeat (split; [first [assumption | apply v_vecE_intro; assumption | apply v_vecX_intro; assumption]|]).
+    apply v_vecE_intro; assumption.
+  Qed.
 End W.
+
+(* ------------------------------------------------------------------------------------------ *)
+(* The instance asked for: N = u32::MAX, i.e. p < 2^(8*4294967295).  Every theorem above is     *)
+(* instantiated the same way: [thm K fl P 4294967295 u32max_ok ...].  (Keep that literal power  *)
+(* out of proof contexts where lia/auto run: they try to evaluate it.)                        *)
+(* ------------------------------------------------------------------------------------------ *)
+Lemma u32max_ok : 1 <= 4294967295 <= 4294967295.
+Proof. lia. Qed.
+
+Theorem rt_E_max K fl P : 1 < p_p P -> p_p P < 2 ^ (8 * 4294967295) ->
+  forall a rest, member P a -> rd_E K fl P (wr_E fl a ++ rest) = Ok (a, rest).
+Proof. intros H1 H2. exact (rt_E K fl P 4294967295 u32max_ok H1 H2). Qed.
+
+Theorem rt_proof_max K fl P : 1 < p_p P -> p_p P < 2 ^ (8 * 4294967295) -> 0 < p_q P <= p_p P ->
+  forall w rest, v_proof fl P w -> rd_proof K fl P (wr_proof fl w ++ rest) = Ok (w, rest).
+Proof. intros H1 H2 H3. exact (rt_proof K fl P 4294967295 u32max_ok H1 H2 H3). Qed.
+
+Print Assumptions element_from_bytes_spec.
+Print Assumptions exp_from_bytes_spec.
+Print Assumptions decoded_proof_wf.
+Print Assumptions de_ser_E.
+Print Assumptions de_trailing_proof.
+Print Assumptions ser_inj_proof.
+Print Assumptions de_np_proof.
+Print Assumptions de_trunc_proof.
